@@ -69,6 +69,23 @@ def to_poly(t, names, phi_ops=None, phi_gate=None, nonzero=frozenset()):
     k = t[0]
     if k == 'phi' and phi_gate is not None:
         g = phi_gate.get(t)
+        if g is not None and g[0][0] == 'op' and g[0][1] in ('lt', 'le', 'gt', 'ge'):
+            # a guard on the magnitude of v (zero / subnormal against normal numbers) choosing between two
+            # ways of computing the same thing: both sides must be the same polynomial; on the side
+            # where |v| is at least a positive constant, v is known to be non-zero
+            c = g[0]
+            small, v = None, None
+            for a, b_, flip in ((c[3], c[4], False), (c[4], c[3], True)):
+                if a[0] == 'call' and isinstance(a[1], str) and a[1].endswith("::abs") and b_[0] == 'c' and b_[1] == 'f64' and 0 < b_[2] < (1 << 62):
+                    v = a[2][0]
+                    op = c[1] if not flip else {'lt': 'gt', 'le': 'ge', 'gt': 'lt', 'ge': 'le'}[c[1]]
+                    small = op in ('lt', 'le')          # cond true <=> |v| small
+            if v is not None:
+                small_side, big_side = (g[1], g[2]) if small else (g[2], g[1])
+                ps = to_poly(small_side, names, phi_ops, phi_gate, nonzero)
+                pb = to_poly(big_side, names, phi_ops, phi_gate, nonzero | {v})
+                if ps is not None and pb is not None and ps == pb: return pb
+                return None
         if g is not None and g[0][0] == 'op' and g[0][1] in ('eq', 'ne') and any(x[0] == 'c' and x[1] == 'f64' and x[2] in (0, 1 << 63) for x in (g[0][3], g[0][4])):
             v = g[0][3] if g[0][4][0] == 'c' else g[0][4]
             zero_side, other = (g[1], g[2]) if g[0][1] == 'eq' else (g[2], g[1])
